@@ -22,6 +22,12 @@ fn cexpr_refs(c: &CExpr, out: &mut Vec<Ent>) {
 /// reachability over a *binary* (independent of walrus): what is referenced from the roots the
 /// property lists
 pub fn reachable(m: &AMod) -> HashSet<Ent> {
+    reachable_with(m, false)
+}
+
+/// `live_code_only`: operands of syntactically unreachable code do not count (walrus drops that code
+/// while parsing; used when the *input* is analysed)
+pub fn reachable_with(m: &AMod, live_code_only: bool) -> HashSet<Ent> {
     let mut seen: HashSet<Ent> = HashSet::new();
     let mut todo: Vec<Ent> = vec![];
     let push = |e: Ent, seen: &mut HashSet<Ent>, todo: &mut Vec<Ent>| {
@@ -63,7 +69,14 @@ pub fn reachable(m: &AMod) -> HashSet<Ent> {
                     next.push((Space::Type, imported_func_types[i as usize]));
                 } else if let Some(body) = m.code.get((i - nif) as usize) {
                     next.push((Space::Type, m.funcs[(i - nif) as usize]));
-                    for op in &body.ops {
+                    let live;
+                    let ops: &Vec<decode::AOp> = if live_code_only {
+                        live = crate::code::elide(&body.ops);
+                        &live
+                    } else {
+                        &body.ops
+                    };
+                    for op in ops {
                         for a in &op.args {
                             match a {
                                 Arg::Ref(Space::Local, _) | Arg::Ref(Space::Label, _) => {}
@@ -328,6 +341,23 @@ fn run_wasm(case: &str, wasm: &[u8], edit: Edit, names_on: bool, stats: &mut Sta
             }
         }
         Err(p) => fails.push(("C07:second-gc-panics".into(), format!("second GC + emit panicked: {}", &p[..p.len().min(160)]))),
+    }
+    // ---- C06: everything reachable in the input survives (independent reachability over the decoded
+    // input; compared per index space by count, the memory residue aside)
+    if edit == Edit::None {
+        let r = reachable_with(&a, true);
+        for sp in [Space::Func, Space::Table, Space::Global, Space::Type, Space::Data, Space::Elem, Space::Mem] {
+            let want = if sp == Space::Type {
+                // types are de-duplicated: distinct reachable signatures
+                (0..a.count(sp)).filter(|i| r.contains(&(sp, *i))).map(|i| a.types[i as usize].clone()).collect::<HashSet<_>>().len() as u32
+            } else {
+                (0..a.count(sp)).filter(|i| r.contains(&(sp, *i))).count() as u32
+            };
+            let got = b.count(sp);
+            if got < want {
+                fails.push((format!("C06:reachable-{}-dropped", sp.tag()), format!("{} {:?} entities are reachable from the roots of the input, the output has {}", want, sp, got)));
+            }
+        }
     }
     // ---- C06: exports survive (names, kinds, order); edits that change exports are accounted for
     if edit == Edit::None || edit == Edit::NameEverything {
